@@ -73,3 +73,21 @@ Print Assumptions C16_backward_row_defect.
 Print Assumptions C16_backward_solves.
 Print Assumptions C16_regularised_inverse.
 Print Assumptions C16_hessenberg_sweep.
+
+From QVT Require Import HessQRDegen.
+(* ... and also when degenerate pairs ARE met, as long as their sub-diagonal entry is exactly zero (a zero column that is not the last, a
+   triangular column of tiny norm): the identity rotation is applied there and the conclusion is the same *)
+Theorem C16_hessenberg_sweep_with_zero_pairs (eps : R) (m n : nat) (H : fmat ROps) : (0 <= eps)%R -> 1 <= m -> m - 1 <= n ->
+  (forall i c, i < m -> c < n -> c + 1 < i -> H i c = fq0) ->
+  sweep_ok eps m n (seq 0 (m - 1)) feye (fretab m n H) ->
+  let '(W, Rm) := sweep ROps eps m n (seq 0 (m - 1)) feye (fretab m n H) in
+  unitary m (tom W) /\ meq m n (qmm m (tom W) (tom Rm)) (tom H) /\ (forall i c, i < m -> c < n -> c < i -> Rm i c = fq0).
+Proof. intros He Hm Hmn Hh Hok. exact (hess_sweep_correct_with_zero_pairs eps m n (tom H) He H Hm Hmn Hh (fun i j _ _ => eq_refl) Hok). Qed.
+(* the premise is satisfiable with a degenerate position: the 3 x 2 matrix [[0, 1], [0, 1], [0, 1]] has a zero first column (degenerate pair
+   with zero sub-diagonal at position 0) and a non-degenerate pair at position 1 *)
+Example C16_zero_pair_premise_holds : sweep_ok 0%R 2 1 (seq 0 1) feye (fretab 2 1 (fun _ _ => @fq0 ROps)).
+Proof.
+  cbn [seq sweep_ok]. split; [|exact I]. right. split; [|reflexivity].
+  cbn. assert (E : GivensThm.NR (@fq0 ROps) = 0%R) by (unfold GivensThm.NR; cbn; ring). rewrite E, Rplus_0_r, sqrt_0. apply Rle_refl.
+Qed.
+Print Assumptions C16_hessenberg_sweep_with_zero_pairs.
